@@ -644,6 +644,12 @@ class An:
             if contradicts(s.facts,f): return False      # infeasible under the path's ordering facts
             s.facts.append(f)
             return True
+        if isinstance(v,IntV) and isinstance(v.val,dict) and self.single_sym(v.val) and not otherwise:
+            # `match rhs { 0 => .., 1 => .., x => .. }` on a primitive operand
+            s.subst[self.single_sym(v.val)]=int(val)
+            return True
+        if isinstance(v,IntV) and otherwise:
+            return True
         if isterm(v) and v[0] in('sc','par','add','sub','cast','unk','mulc','max','min'):
             # `match scale { 0 => .., _ => .. }`: a switch on the scalar itself
             if not otherwise:
@@ -718,6 +724,13 @@ class An:
             elif str(rv.get('kind','')).startswith('FloatToInt') and self.kind=='dims':
                 v=('unk','float@%d'%st['line'])       # an integer estimate computed in floating point: an opaque scalar
                 if str(rv.get('to','')).startswith('u'): s.facts.append(('le',TERM0,v))
+        elif r=='un':
+            a=self.deref(s,self.op(s,rv['a']))
+            if rv.get('uop')=='Neg' and isterm(a): v=('sub',TERM0,a)
+            elif rv.get('uop')=='Neg' and isinstance(a,IntV): v=IntV(padd({},a.val,-1) if isinstance(a.val,dict) else a.val,a.dim)
+            elif rv.get('uop')=='Not' and isinstance(a,tuple) and a and a[0]=='bool':
+                inv={'lt':'ge','le':'gt','gt':'le','ge':'lt','eq':'ne','ne':'eq'}
+                v=('bool',inv.get(a[1],a[1]),a[2],a[3])
         elif r=='discr': v=('discr',self.deref(s,self.read(s,rv['pl'])))
         elif r=='agg':
             kind=rv['kind']; ops=[self.op(s,o) for o in rv['ops']]
@@ -1079,6 +1092,11 @@ class An:
         elif re.search(r'One::one$',d) and BIG.search(dest['ty']): v=IntV(P(1),TERM0)
         elif re.search(r'Zero::zero$',d) and DEC.match(dest['ty']): v=Rec(TERM0,IntV({},TERM0),None,None,'zero')
         elif re.search(r'One::one$',d) and DEC.match(dest['ty']): v=Rec(TERM0,IntV(P(1),TERM0),None,None,'one')
+        elif re.search(r'clone::Clone::clone_from$',d) and len(args)==2:
+            dst,src=args[0],args[1]
+            if isinstance(dst,IntV) and isinstance(src,IntV): dst.val,dst.dim=src.val,src.dim; dst.__dict__.pop('anydim',None)
+            elif isinstance(dst,Rec) and isinstance(src,Rec): dst.__dict__.update({k_:v_ for k_,v_ in src.__dict__.items()})
+            v=('int',0)
         elif re.search(r'Zero::set_zero$',d):
             x=args[0]
             if isinstance(x,IntV): x.val={}; x.dim=('unk','anydim'); x.anydim=True
